@@ -322,6 +322,8 @@ pub fn values() -> Vec<&'static str> {
 fn base_values() -> Vec<&'static str> {
     vec![
         "", "localtime", ":", ":UTC", ":/abs/f", "/abs/f", "UTC", "UTC0", " UTC0 ", "\tUTC0\n", "EST5EDT", "EST5EDT,M3.2.0,M11.1.0", "rel/f", "localtime ", ":localtime", " :UTC", "::UTC", "bad string", " localtime", "localtime\n", ": UTC", "/", ":/", "<+03>-3", " ", "\n", "EST5 ", ":EST5", "Europe/Paris", "../etc/passwd", ":/etc/localtime", "/etc/localtime",
+        // a NUL byte is an ordinary character of a name (the reader decides what it can open)
+        "UTC\0", ":UTC\0", "UTC0\0", "\0", ":\0", "Europe\0/Paris", "/abs\0/f",
         // absolute values that lie inside a configured directory (read as they are: no other directory is consulted)
         "/d1/f", ":/d1/f", "/d2/UTC0", ":/d2/Europe/Paris", "/usr/share/zoneinfo/UTC", ":/d1/", "/d1",
         // white space inside the value (only leading and trailing white space is insignificant)
@@ -352,6 +354,47 @@ pub fn dir_lists(thorough: bool) -> Vec<Vec<&'static str>> {
     }
     out.push(vec!["/usr/share/zoneinfo", "/share/zoneinfo", "/etc/zoneinfo"]);
     out
+}
+
+/// child mode `resolve-long`: directory lists far longer than any real one (recursion over the list shows as a stack
+/// overflow, which aborts the process): every candidate is requested once, in order; exit 0 = as the protocol says
+pub fn run_long(_args: &Args) -> i32 {
+    let ok = std::thread::Builder::new()
+        .stack_size(2 << 20)
+        .spawn(|| {
+            let mut ok = true;
+            for n in [1_000usize, 20_000, 100_000] {
+                let owned: Vec<String> = (0..n).map(|i| format!("/dir{i:06}")).collect();
+                let dirs: Vec<&str> = owned.iter().map(|s| s.as_str()).collect();
+                for (value, name, want_zone) in [(":Europe/Paris", "Europe/Paris", false), ("UTC0", "UTC0", true)] {
+                    VFS.with(|v| v.borrow_mut().clear());
+                    LOG.with(|l| l.borrow_mut().clear());
+                    // every unnamed path is unreadable in this mode
+                    let reader = |p: &str| -> Result<Vec<u8>, Box<dyn std::error::Error + Send + Sync + 'static>> {
+                        LOG.with(|l| l.borrow_mut().push(p.to_string()));
+                        Err(Box::new(std::io::Error::from(std::io::ErrorKind::NotFound)))
+                    };
+                    let settings = TimeZoneSettings::new(&dirs, reader);
+                    let got = classify(settings.parse_posix_tz(value));
+                    let log: Vec<String> = LOG.with(|l| l.borrow().clone());
+                    let paths_ok = log.len() == n && log.iter().zip(owned.iter()).all(|(a, d)| *a == format!("{d}/{name}"));
+                    let out_ok = if want_zone { matches!(got, Outcome::Zone(_)) } else { matches!(got, Outcome::Io) };
+                    if !(paths_ok && out_ok) {
+                        println!("LONG-DIRS mismatch: n={n} value={value} requests={} outcome={}", log.len(), outcome_name(&got));
+                        ok = false;
+                    }
+                }
+            }
+            ok
+        })
+        .expect("spawn")
+        .join()
+        .unwrap_or(false);
+    if ok {
+        0
+    } else {
+        1
+    }
 }
 
 pub fn run(args: &Args) -> i32 {
@@ -397,6 +440,19 @@ pub fn run(args: &Args) -> i32 {
             tl
         })
         .reduce(Tally::default, Tally::merge);
+    // directory lists of up to 100 000 entries in a child process (a stack overflow aborts the process)
+    if !args.digest_mode {
+        let exe = std::env::current_exe().expect("exe");
+        let out = std::process::Command::new(&exe).arg("resolve-long").output();
+        let (ok, status, text) = match out {
+            Ok(o) => (o.status.success(), format!("{:?}", o.status), format!("{}{}", String::from_utf8_lossy(&o.stdout), String::from_utf8_lossy(&o.stderr))),
+            Err(e) => (false, format!("spawn failed: {e}"), String::new()),
+        };
+        rec.sub("long_directory_lists", json!({"lengths": [1000, 20000, 100000], "values": [":Europe/Paris", "UTC0"], "child_status": status}));
+        if !ok {
+            rec.violation("long_directory_lists", json!({"kind":"long_dirs"}), json!("every candidate requested once, in order; Io error / POSIX zone; no abort"), json!({"status": status, "output": text.chars().take(600).collect::<String>()}));
+        }
+    }
     rec.sub("configurations", json!({"tz_values": vals.len(), "directory_lists": dls.len(), "configurations": total.evals, "file_open_requests_compared": total.opens}));
     rec.add(total.evals, total.nontrivial);
     rec.add_model(total.evals, total.opens + total.evals, total.evals);
@@ -412,6 +468,12 @@ pub fn run(args: &Args) -> i32 {
 
 pub fn replay(case: &Value, args: &Args) -> i32 {
     let rec = Recorder::new(args, "model_checking");
+    if case["kind"] == "long_dirs" {
+        let exe = std::env::current_exe().expect("exe");
+        let ok = std::process::Command::new(&exe).arg("resolve-long").status().map(|s| s.success()).unwrap_or(false);
+        println!("{}", if ok { "REPLAY: case passes" } else { "REPLAY: violation reproduced" });
+        return if ok { 0 } else { 1 };
+    }
     if case["kind"] != "resolve" {
         return 2;
     }
